@@ -3,6 +3,10 @@ import OtelVerif.Lemmas.C13Faithful
 import OtelVerif.Lemmas.C13Hooks
 import OtelVerif.Gen.UnmarshalHooks
 import OtelVerif.Gen.ConfigSchemas
+import OtelVerif.Lemmas.C13Validate
+import OtelVerif.Model.C13HooksGen
+import OtelVerif.Lemmas.C13Walk
+import OtelVerif.Lemmas.C13Load
 /-!
 # C13 — configuration loading is faithful and strict
 
@@ -895,5 +899,131 @@ theorem C13_refs_names_extension_and_ambiguous (c : Top) (r : Id) :
               obtain ⟨n1, n2, n3⟩ := pipeNot pid p e hp
               exact ⟨fun h => absurd h n1, fun h => absurd h n2, fun h => absurd h n3⟩
   exact ⟨fun h => (key _ h).1 rfl, fun h => (key _ h).2.1 rfl, fun h => (key _ h).2.2 rfl⟩
+
+/-! ## (b') the reference checks as the source states them today (`Gen/ConfigValidate.lean`, go/ast translation)
+
+`translators/cmd/configvalidate` translates the bodies of `otelcol.Config.Validate` and `pipelines.PipelineConfig.Validate`
+statement by statement (source order) into `Phase` / `PPhase`; `evalPhases` / `evalPipe` interpret them.  The theorems
+below transfer the characterisations from the hand model to the interpreter of the REGENERATED statements: a removed,
+reordered or rewritten check changes `Gen.ConfigValidate.rootPhases` and these proofs are re-checked against it. -/
+
+/-- the interpreter of the regenerated statement list of `otelcol.Config.Validate` is the hand model -/
+theorem C13_root_phases_regenerated (c : Top) : evalPhases c Gen.ConfigValidate.rootPhases = rootErrs c := root_regen c
+
+/-- … and of `pipelines.PipelineConfig.Validate` / `pipelines.Config.Validate` (the `len(cfg) == 0` test) -/
+theorem C13_pipe_phases_regenerated (c : Top) :
+    (∀ pid p, evalPipe pid p Gen.ConfigValidate.pipePhases = pipeErr pid p) ∧
+    evalShape c Gen.ConfigValidate.noPipelines.2 Gen.ConfigValidate.pipePhases = shapeErrs c :=
+  ⟨pipe_regen, shape_regen c⟩
+
+/-- what the source accepts today: exactly the configurations without a reference defect (`C13_refs` on the regenerated statements) -/
+theorem C13_refs_regenerated (c : Top) : evalPhases c Gen.ConfigValidate.rootPhases = [] ↔ RefsOk c := by
+  rw [C13_root_phases_regenerated]; exact C13_refs c
+
+/-- … and without a pipeline-shape defect (`C13_shape` on the regenerated statements) -/
+theorem C13_shape_regenerated (c : Top) :
+    evalShape c Gen.ConfigValidate.noPipelines.2 Gen.ConfigValidate.pipePhases = [] ↔
+      c.pipelines ≠ [] ∧ ∀ p ∈ c.pipelines, p.2.recv ≠ [] ∧ p.2.exps ≠ [] ∧ p.2.procs.Nodup := by
+  rw [(C13_pipe_phases_regenerated c).2]; exact C13_shape c
+
+/-- every regenerated error message of a loop names the offending entry: each loop variable (connector id; service
+extension reference; pipeline id AND reference) is the root of one of the `fmt.Errorf` arguments, and no verb lacks its argument -/
+theorem C13_messages_name_entry :
+    (∀ ph ∈ Gen.ConfigValidate.rootPhases, ph.namesEntry = true) ∧ (∀ ph ∈ Gen.ConfigValidate.pipePhases, ph.namesEntry = true) := by
+  constructor <;> decide
+
+/-- the signal switch of `pipelines.Config.Validate` (outside the property: which signals exist) still has the reviewed
+clauses — (labels, number of returns); an alarm, not semantics -/
+theorem C13_signal_switch_as_reviewed : Gen.ConfigValidate.signalSwitch =
+    [("pipeline.SignalTraces,pipeline.SignalMetrics,pipeline.SignalLogs", 0), ("xpipeline.SignalProfiles", 1), ("default", 1)] := by decide
+
+example : evalPhases { receivers := [1], exporters := [2], connectors := [3], processors := [(4, true)], extensions := [(5, true)],
+                       svcExtensions := [5], pipelines := [(0, ⟨[1], [4, 9], [2, 3]⟩)] } Gen.ConfigValidate.rootPhases
+    = [.danglingProcessor 0 9] := by decide
+
+/-! ## (a') the components' own `Unmarshal` fix-ups as the source states them today (`Gen/UnmarshalHooks.lean` `hooks`)
+
+`translators/cmd/unmarshalhooks` now TRANSLATES the bodies of `queuebatch.Config.Unmarshal`, `otlpreceiver.Config.Unmarshal`
+and `otlpexporter.Config.Unmarshal` into the `Hook` language (Go fields resolved to mapstructure keys through the struct
+tags; every `IsSet` guard must guard the field with that key); the fingerprints stay as a second alarm. -/
+
+/-- the regenerated translation of the three `Unmarshal` bodies, placed at any position, is the reviewed hand table: the
+hooked faithfulness / strictness theorems (`C13_faithful_written_hooked`, `C13_effective_hooked`, `C13_strict_builtin`)
+and the driver's `decodeC` are about the fix-ups of today's source -/
+theorem C13_hooks_regenerated (t : String) (q : List String) : hooksOfTypeG t q = hooksOfType t q := by
+  simp only [hooksOfTypeG, hooksOfType, Gen.UnmarshalHooks.hooks, List.lookup]
+  by_cases h1 : (t == "queuebatch.Config") = true
+  · simp [h1, Hook.placed]
+  · by_cases h2 : (t == "otlpreceiver.Config") = true
+    · simp [h1, h2, Hook.placed]
+    · by_cases h3 : (t == "otlpexporter.Config") = true
+      · simp [h1, h2, h3, Hook.placed]
+      · simp [h1, h2, h3]
+
+/-- … hence per component, from the regenerated custom positions -/
+theorem C13_component_hooks_regenerated (custom : List (String × List String × String)) (comp : String) :
+    componentHooksG custom comp = componentHooks custom comp := by
+  simp only [componentHooksG, componentHooks, C13_hooks_regenerated]
+
+open OtelVerif.Gen in
+/-- every custom position of every built-in component has a REGENERATED fix-up list, well placed on the regenerated
+schema (both sides regenerated: positions and kinds by reflection, fix-ups by go/ast) -/
+theorem C13_builtin_hooks_regenerated_well_placed : ∀ c ∈ ConfigSchemas.components,
+    (componentHooksG ConfigSchemas.customPositions c.1).elim false (fun hooks => hooks.all (fun h => h.wellPlaced c.2.1)) = true := by
+  decide
+
+/-- the regenerated fix-ups of the OTLP exporter at work on its regenerated schema and default: `blocking` written alone
+is copied to `block_on_overflow`; written together, `block_on_overflow` keeps what was written -/
+example :
+    (((componentHooksG Gen.ConfigSchemas.customPositions "exporters/otlp").bind (fun hooks =>
+        decodeC hooks Gen.ConfigSchemas.exporters_otlp_schema Gen.ConfigSchemas.exporters_otlp_default
+          (.map [("sending_queue", .map [("blocking", .scalar 777)])]))).bind
+      (fun t => getS Gen.ConfigSchemas.exporters_otlp_schema t ["sending_queue", "block_on_overflow"])).elim false
+        (fun t => match t with | .atom (.scalar n) => n == 777 | _ => false) = true := by
+  decide
+
+/-! ## (i') the validation walk as the source states it today (`Gen/ValidateWalk.lean`, go/ast translation of `switch v.Kind()`) -/
+
+/-- the interpreter of the regenerated clause table of `xconfmap.validate` is the hand model, on every tree -/
+theorem C13_walk_regenerated (t : VT) : walkG Gen.ValidateWalk.cases t = validate t := walkG_eq t
+
+/-- clause (i) on the regenerated table: the walk that today's source prescribes reports exactly the failing `Validate()`
+of every reachable nested value, with its path, whatever the parents return -/
+theorem C13_validate_complete_regenerated (t : VT) (p : Path) (n : Nat) :
+    (p, n) ∈ walkG Gen.ValidateWalk.cases t ↔ Fails t p n := by
+  rw [C13_walk_regenerated]; exact C13_validate_complete t p n
+
+/-- `VT.seq` stands for slices and arrays, `VT.ptr` for pointers and interfaces: the regenerated table treats each pair alike -/
+theorem C13_walk_table_paired : tablePaired Gen.ValidateWalk.cases = true := by decide
+
+example : walkG Gen.ValidateWalk.cases (.struct none [("a", true, .map (some 7) [("k", .leaf none, .seq none [.ptr (.struct none [("x", true, .leaf (some 9))])])])])
+    = [(["a"], 7), (["a", "k", "0", "x"], 9)] := by decide
+
+/-! ## (d') loading a section as the source states it today (`Gen/ConfigsLoad.lean`: go/ast translation of `Configs.Unmarshal`) -/
+
+/-- the interpreter of the regenerated statements of `configunmarshaler.Configs.Unmarshal` (before the loop / loop body, over
+local registers and the heap) is the hand model: every id gets a NEW default object of its type overlaid by its own keys -/
+theorem C13_load_regenerated (defaults : String → Obj) (entries : List (CId × List (String × String))) :
+    runLoad Gen.ConfigsLoad.before Gen.ConfigsLoad.body defaults entries = loadAll defaults entries := load_eq defaults entries
+
+/-- `C13_instances_independent` on the regenerated statements: whatever the number of instances and the iteration order, each
+instance shows the default of its type overlaid by exactly its own keys -/
+theorem C13_instances_independent_regenerated (defaults : String → Obj) (entries : List (CId × List (String × String)))
+    (hnd : (entries.map (·.1)).Nodup) (id : CId) (w : List (String × String)) (hm : (id, w) ∈ entries) :
+    (runLoad Gen.ConfigsLoad.before Gen.ConfigsLoad.body defaults entries).result id = some (overlay (defaults id.1) w) := by
+  rw [C13_load_regenerated]; exact C13_instances_independent defaults entries hnd (id, w) hm
+
+/-- successive loads in one process: whatever state an earlier load left (`s0`: its result map, its objects), the next
+`Unmarshal` shows no id that the new document does not write (`c.cfgs = make(…)` before the loop) -/
+theorem C13_reload_forgets (defaults : String → Obj) (s0 : LoadSt) (entries : List (CId × List (String × String))) (id : CId)
+    (h : id ∉ entries.map (·.1)) :
+    (runLoadFrom Gen.ConfigsLoad.before Gen.ConfigsLoad.body defaults s0 entries).result id = none :=
+  reload_forgets defaults s0 entries id h
+
+example : ((runLoadFrom Gen.ConfigsLoad.before Gen.ConfigsLoad.body (fun _ => [("endpoint", "")])
+    { heap := [(0, [("endpoint", "old")])], next := 1, out := [(("otlp", "a"), 0)] } [(("otlp", "b"), [("endpoint", "x")])]).result ("otlp", "a"),
+    (runLoadFrom Gen.ConfigsLoad.before Gen.ConfigsLoad.body (fun _ => [("endpoint", "")])
+    { heap := [(0, [("endpoint", "old")])], next := 1, out := [(("otlp", "a"), 0)] } [(("otlp", "b"), [("endpoint", "x")])]).result ("otlp", "b"))
+    = (none, some [("endpoint", "x")]) := by decide
 
 end OtelVerif.C13
